@@ -626,6 +626,8 @@ def run(ck):
         "the names (sorted); exercised on every file case",
         "numpy indexing: negative indices wrap, out-of-range raises IndexError (pyget/pyset)",
         "impl/c18_impl.py and the term printer in checks/c18.py (integers, booleans, ASCII names)",
+        "translators/tr_c18.py (python ast): open_file modes of ArrayMorphWriter/ArrayMorphLoader and the attributes "
+        "SegmentList/ArrayMorphology assign on self, regenerated on every run into Gen_C18.v (Inst_C18.static_ok)",
         "frame: the model is functional (values cannot alias); the driver therefore builds two morphologies from the same "
         "numpy arrays / lists and compares both and the caller's arrays after every operation (C18_frame)",
     ]
